@@ -628,6 +628,14 @@ func checkC12(x *X, c *Case, strict bool) *Outcome {
 				o.Tolerated = append(o.Tolerated, "KF-C12-NLSTART")
 				continue
 			}
+			// recorded finding: the result of a left-recursive rule stays memoized per offset; invoked
+			// again at that offset inside another parity of ! nesting, the terminals it tries there
+			// are not recorded again (a subset of the expected set is reported; the position may
+			// fall back to an earlier failure)
+			if !strict && x.KF["KF-C12-LRMEMO"] && ref.Stats.LRInvertSwitch > 0 {
+				o.Tolerated = append(o.Tolerated, "KF-C12-LRMEMO")
+				continue
+			}
 			o.Viol = viol(pk, c, "farthest_failure", fmt.Sprintf("want %q, got %q", ref.Errs[0].Msg, resp.Errs[0].Msg), ref.ErrText, resp.ErrText)
 			return o
 		}
@@ -735,7 +743,15 @@ func checkC14(x *X, c *Case, strict bool) *Outcome {
 	if ex := knownExclusion(x, ref, strict); ex != "" {
 		return &Outcome{Excluded: ex}
 	}
+	if ref.Stats.LRHandlerSwitch > 0 && !strict && x.KF["KF-C14-LRMEMO"] {
+		// recorded finding: the result of a left-recursive rule stays memoized per offset; invoked
+		// again under other recovery operators, its throws are not evaluated again
+		return &Outcome{Excluded: "KF-C14-LRMEMO"}
+	}
 	o := &Outcome{Tags: commonTags(c, ref)}
+	if len(ref.Stats.LRCalls) > 0 {
+		o.Tags = append(o.Tags, "left_recursive_rule_invoked")
+	}
 	o.Nontrivial = ref.Stats.ThrowsHandled >= 1 || ref.Stats.ThrowFallthrough >= 1
 	if ref.Stats.Throws > 0 {
 		o.Tags = append(o.Tags, "throw")
@@ -756,6 +772,11 @@ func checkC14(x *X, c *Case, strict bool) *Outcome {
 		if d := compareOutcome(ref, resp, want, true); d != "" {
 			o.Viol = viol(pk, c, "match_value", d, describeRef(ref), describeResp(resp))
 			return o
+		}
+		if !lrOnce(ref) {
+			// (a left-recursive rule invoked again at an offset replays its result without running
+			// its blocks again: the trace is not comparable, success, prefix and value are)
+			continue
 		}
 		if d, stale := compareEvents(x, ref, ctx.Events, "ctx", strict); d != "" {
 			o.Viol = viol(pk, c, "action_trace", d, traceText(ref.Events), traceText(ctx.Events))
